@@ -120,6 +120,17 @@ package router
 //@   ensures isnil(result1)
 //@   ensures !requestInfo.TargetAddr.IsIP() ==> !result0
 
+// a matched destination domain whose address must also satisfy the expected-IP criterion: both, in that order
+//@ func (DestDomainExpectedIPCriterion).Meet
+//@   requires reqOK(requestInfo)
+//@   ensures requestInfo.TargetAddr.IsIP() ==> !result0 && isnil(result1)
+//@   ensures result0 ==> critMet(c.expectedIPCriterion, network, requestInfo) && !critFails(c.expectedIPCriterion, network, requestInfo)
+//@   ensures result0 ==> isnil(result1)
+
+//@ func (DestGeoIPCountryCriterion).Meet
+//@   requires reqOK(requestInfo)
+//@   ensures !requestInfo.TargetAddr.IsIP() ==> !result0 && isnil(result1)
+
 // Route-level meaning (opaque outside (*Route).Match): all criteria met / evaluation fails at the first unmet criterion.
 //@ opaque routeMet(r *Route, network protocol, req RequestInfo) bool = forall k int :: 0 <= k && k < len(r.criteria) ==> critMet(r.criteria[k], network, req) && !critFails(r.criteria[k], network, req)
 //@ opaque routeFails(r *Route, network protocol, req RequestInfo) bool = exists k int :: 0 <= k && k < len(r.criteria) && critFails(r.criteria[k], network, req) && (forall j int :: 0 <= j && j < k ==> critMet(r.criteria[j], network, req) && !critFails(r.criteria[j], network, req))
